@@ -432,29 +432,8 @@ theorem compile_accepts_valid (g : Graph) (comps : List (List Nat)) (hkeys : g.k
   simp only [validScc, Bool.and_eq_true, List.all_eq_true] at hv
   obtain ⟨hvo, hscc⟩ := hv
   have topo := RotoV.Tarjan.validOrder_sound g comps hvo
-  have hs : selfEdge g g.edges = none := by
-    cases h : selfEdge g g.edges with
-    | none => rfl
-    | some c =>
-      obtain ⟨hk, rs, hm, hr⟩ := selfEdge_inv g g.edges c h
-      have hl : g.edges.lookup c = some rs := lookup_of_mem_nodup g.edges c rs hkeys hm
-      have e : Edge g c c := by simp [Edge, Graph.refs, hl, hr]
-      exact absurd (Reach.refl c) (hacyc c c hk e)
-  have hm : mixedComponent g comps = none := by
-    cases h : mixedComponent g comps with
-    | none => rfl
-    | some c =>
-      obtain ⟨comp, hcomp, hl, hcc, hk⟩ := mixedComponent_inv g comps c h
-      have hnd : comp.Nodup := by
-        obtain ⟨pre, post, hsplit⟩ := List.append_of_mem hcomp
-        have := topo.nodup
-        rw [hsplit] at this
-        simp only [List.flatten_append, List.flatten_cons] at this
-        exact (List.nodup_append.1 (List.nodup_append.1 this).2.1).1
-      obtain ⟨y, hy, hyc⟩ := exists_ne_of_length hnd hl c
-      have sc := sccOk_sound g comp (hscc comp hcomp)
-      obtain ⟨m, e, r⟩ := (sc c y hcc hy).head_of_ne (Ne.symm hyc)
-      exact absurd (r.trans (sc y c hy hcc)) (hacyc c m hk e)
+  obtain ⟨hs, hm⟩ := cycle_tests_pass g hkeys comps topo
+    (fun comp hcomp => sccOk_sound g comp (hscc comp hcomp)) hacyc
   obtain ⟨r, hr, hiff, _⟩ := context_rejected_iff g
   have hrn : r = none := by
     cases r with
@@ -465,6 +444,68 @@ theorem compile_accepts_valid (g : Graph) (comps : List (List Nat)) (hkeys : g.k
     simp [findCompilationOrder, hs, ht, hm, hr, bind, Except.bind]
   obtain ⟨_, st, h1, h2, h3, h4, _⟩ := compile_evaluates_once g comps comps.flatten ht topo ho
   exact ⟨st, h1, h2, h3, h4⟩
+
+/-- **T1, second half, for the algorithm as written**: the members of every
+component `tarjan` returns reach each other — a component of more than one
+name is a genuine cycle, so `find_compilation_order` never reports a constant
+as recursive that is not. -/
+theorem components_strongly_connected (g : Graph) (comps : List (List Nat)) (h : tarjan g = .ok comps) :
+    ∀ c, c ∈ comps → ∀ x y, x ∈ c → y ∈ c → Reach g x y :=
+  RotoV.Tarjan.tarjan_scc g comps h
+
+example : tarjan ⟨[(1, [2]), (2, [3]), (3, [4]), (4, [1])], fun _ => .func⟩ = .ok [[4, 3, 2, 1]] := by decide
+
+/-- **Completeness in full, no certificate**: every reference graph (distinct
+keys) in which no constant reaches itself and no script constant reaches a
+context variable is accepted — whatever cycles of mutually recursive functions
+it has and however the names are ordered — and evaluated once each in
+dependency order. -/
+theorem compile_accepts_acyclic (g : Graph) (hkeys : g.keys.Nodup)
+    (hacyc : ∀ c d, g.kind c = .const → Edge g c d → ¬ Reach g d c)
+    (hctx : ¬ ∃ c, c ∈ g.keys ∧ g.kind c = .const ∧ UsesCtx g c) :
+    ∃ o st, compile g = .ok (.compiled o st) ∧
+      st.log.Nodup ∧
+      (∀ c, c ∈ st.log ↔ (c ∈ g.keys ∧ g.kind c = .const)) ∧
+      (∀ c d, c ∈ st.log → d ∈ g.keys → g.kind d = .const → d ≠ c → Reach g c d → Before d c st.log) ∧
+      (∀ c, c ∈ g.keys → g.kind c = .const → readConstant st c = .ok st) := by
+  obtain ⟨comps, ht, topo⟩ := order_topological_total g hkeys
+  obtain ⟨hs, hm⟩ := cycle_tests_pass g hkeys comps topo (RotoV.Tarjan.tarjan_scc g comps ht) hacyc
+  obtain ⟨r, hr, hiff, _⟩ := context_rejected_iff g
+  have hrn : r = none := by
+    cases r with
+    | none => rfl
+    | some c => exact absurd (hiff.1 rfl) hctx
+  subst hrn
+  have ho : findCompilationOrder g = .ok (.order comps.flatten) := by
+    simp [findCompilationOrder, hs, ht, hm, hr, bind, Except.bind]
+  obtain ⟨st, h⟩ := evaluated_once_in_order g hkeys comps.flatten ho
+  exact ⟨comps.flatten, st, h⟩
+
+/-- non-vacuity: two mutually recursive functions 1 ⇄ 2, constants 0 → 2 and
+3 → 1 entering the ring through either member (the shape a stale on-stack flag
+turns into a bogus "recursively defined"), constant 4 → 0: accepted, in order -/
+example : (compile ⟨[(0, [2]), (1, [2]), (2, [1]), (3, [1]), (4, [0])],
+    fun n => if n = 1 ∨ n = 2 then .func else .const⟩).map
+      (fun r => match r with | .compiled o st => (o, st.log) | .rejected _ _ => ([], [])) =
+    .ok ([1, 2, 0, 3, 4], [0, 3, 4]) := by decide
+
+/-- **Context use in full, no certificate**: when no constant reaches itself,
+`compile` rejects with `usesContext c` — nothing evaluated — exactly when some
+script constant transitively reads a context variable, and the `c` it names
+is one. -/
+theorem context_rejected_acyclic (g : Graph) (hkeys : g.keys.Nodup)
+    (hacyc : ∀ c d, g.kind c = .const → Edge g c d → ¬ Reach g d c) :
+    ((∃ c, c ∈ g.keys ∧ g.kind c = .const ∧ UsesCtx g c) ↔
+      ∃ c, compile g = .ok (.rejected (.usesContext c) [])) ∧
+    (∀ c, compile g = .ok (.rejected (.usesContext c) []) →
+      c ∈ g.keys ∧ g.kind c = .const ∧ UsesCtx g c) := by
+  obtain ⟨comps, ht, topo⟩ := order_topological_total g hkeys
+  obtain ⟨hs, hm⟩ := cycle_tests_pass g hkeys comps topo (RotoV.Tarjan.tarjan_scc g comps ht) hacyc
+  exact context_rejected g comps ht hs hm
+
+example : compile ⟨[(0, [1]), (1, [2, 3]), (2, [1])],
+    fun n => if n = 0 then .const else if n = 3 then .ctx else .func⟩
+    = .ok (.rejected (.usesContext 0) []) := by decide
 
 example : validScc ⟨[(1, [2]), (2, [3, 4]), (3, [2, 4]), (4, [])], fun _ => .func⟩ [[4], [3, 2], [1]] = true := by
   decide
